@@ -456,7 +456,7 @@ func streamBuiltins(o *Out, r *rand.Rand, n int, thorough bool) {
 		}
 	}
 	// misuse must be an error, never a crash
-	for _, src := range []string{"toInt()", "toInt(1, 2)", "keys(1)", "keys()", "range(\"x\")", "range(1, \"x\")", "typeOf()", "kindOf(1, 2)", "toString()",
+	for _, src := range []string{"kindOf({\"a\": 1}...)", "toInt(\"7\"...)", "typeOf(1...)", "toString(nil...)", "toInt()", "toInt(1, 2)", "keys(1)", "keys()", "range(\"x\")", "range(1, \"x\")", "typeOf()", "kindOf(1, 2)", "toString()",
 		"toChar(\"abc\")", "toIntSlice(1)", "toDuration(\"x\")", "load(1)", "toBoolSlice([1], 2)", "range([1])", "keys(nil)", "toRune([1])", "toByteSlice({})"} {
 		out := runScript(src, nil, coreEnv)
 		o.Sum.Evaluations++
@@ -497,6 +497,14 @@ func streamBuiltins(o *Out, r *rand.Rand, n int, thorough bool) {
 		{"s = \"abc\"\nb = toByteSlice(s)\nb[0] = 88\n[s, toString(b)]", []interface{}{"abc", "Xbc"}},
 		{"l = [1, 2]\nt = toIntSlice(l)\nl[0] = 9\nt[1] = 7\n[l, t]", []interface{}{[]interface{}{int64(9), int64(2)}, []int64{1, 7}}},
 		{"r = toRuneSlice(\"ab\")\nc = toChar(r[0])\nr[0] = 122\nc", "a"},
+		// toChar is Go's string(rune): code points that are no characters (negative, surrogates, too large) give U+FFFD
+		{"toChar(-1)", string(rune(-1))}, {"toChar(-65)", string(rune(-65))}, {"toChar(0)", string(rune(0))}, {"toChar(127)", string(rune(127))}, {"toChar(128)", string(rune(128))},
+		{"toChar(55296)", string(rune(55296))}, {"toChar(1114112)", string(rune(1114112))}, {"toChar(4294967295)", string(rune(-1))}, {"toChar(2147483713)", func() string { v := int64(2147483713); return string(rune(v)) }()},
+		{"toChar(65)", "A"}, {"toChar(8364)", "\u20ac"},
+		// a call that spreads a list over the parameters of a builtin is the call with the list's elements
+		{"typeOf([1]...)", "int64"}, {"kindOf([1.5]...)", "float64"}, {"toString([12]...)", "12"}, {"toInt([\"7\"]...)", int64(7)}, {"toFloat([\"2.5\"]...)", 2.5}, {"toBool([\"true\"]...)", true},
+		{"typeOf([[1]]...)", "[]interface {}"}, {"toInt([7.9]...)", int64(7)}, {"toString([nil]...)", "<nil>"},
+		{"l = [\"7\"]\ntoInt(l...)", int64(7)}, {"func g() { return [\"x\"] }\ntypeOf(g()...)", "string"},
 	}
 	// toRune / toChar / toRuneSlice / toByteSlice on texts that are not clean UTF-8: Go's own []rune(s) / string(r) decide
 	for _, txt := range []string{"\xffabc", "\xe4\xb8", "\uFFFDx", "a\xff", "é", "日本", "a", "\x00", "\xf0\x9f\x98\x80!", "\xc3"} {
